@@ -136,7 +136,11 @@ void Exec::judge_solve(Obj &o, const SolveOut &so, const std::string &how, bool 
 		if (stop) return;
 		// C12: the basis handed back
 		StoredBasis b; bool have = so.have_basis; if (have) b = so.basis; else have = get_basis(o, b);
-		if (have && (int)b.cstat.size() == n && (int)b.rstat.size() == m) {
+		// a float stage that hands over (x, y) from one basis and another basis is not realisable (the vectors are computed from the basis);
+		// flt.basis only serves to exercise the driver's fallback paths, the returned basis is not judged when it fired
+		bool fabricated_basis = false; for (auto &st : world.stages) for (auto &k : st.faults) if (k == "flt.basis") fabricated_basis = true;
+		if (fabricated_basis) probe("c12.skipped_fabricated_basis");
+		if (have && !fabricated_basis && (int)b.cstat.size() == n && (int)b.rstat.size() == m) {
 			BasisEval e = eval_basis(o.m, b.cstat, b.rstat);
 			if (!e.counts_ok) violate("C12", "basis-counts:" + ctx, "basis returned with OPTIMAL does not have exactly one basic variable per row: " + b.cstat + "|" + b.rstat);
 			else if (!e.singular) {
